@@ -113,7 +113,7 @@ class C06(Check):
         assert ins.hits > 0 and ins.pruned > 0, (ins.hits, ins.pruned)
 
     def pinned(self, tier):
-        n = 3 if tier == "quick" else 25
+        n = 2 if tier == "quick" else 25
         for c in gens.corpus_slice(n, maxsize=600 if tier == "quick" else 1200):
             c["between"] = []
             c["fresh"] = c["origin"].startswith("s") and tier != "quick"
@@ -126,7 +126,7 @@ class C06(Check):
             lambda t: dict(t[0], between=t[1], fresh=(t[2] == 0)))
 
     def examples(self, tier):
-        return 45 if tier == "quick" else 2000
+        return 22 if tier == "quick" else 700
 
     def run_case(self, case):
         out = Outcome(labels=["dialect:" + case["dialect"]] + (["mutated"] if case.get("mutated") else []))
